@@ -13,9 +13,15 @@ from . import consts as K
 RING_OPS = {"add", "sub", "mul", "neg", "felem"}
 
 
+BOOL_OPS = ("eq", "ne", "not", "and", "or", "sign", "isqrt_sq", "bool", "choice_true")
+
+
 class Norm:
-    def __init__(self, p):
+    def __init__(self, p, sign_odd=False):
         self.p = p
+        # sign_odd: treat sign(-u) as NOT sign(u).  True for every u != 0 and false at u = 0, so a Norm built with this flag decides
+        # equalities only AWAY from the zeros of the sign-tested quantities; used by symmetry rules that state that restriction.
+        self.sign_odd = sign_odd
         self.atoms = {}      # canonical key -> id
         self.atom_desc = []  # id -> key
         self.memo = {}
@@ -189,6 +195,24 @@ class Norm:
                     lead = max(d)
                     d = self.scale(d, pow(d[lead], -1, self.p))
                     r = ("zero", self.pkey(d))
+            elif a.op in BOOL_OPS and b.op in BOOL_OPS:
+                # equality of two booleans: an "iff" with negations pulled out (iff(not x, y) = not iff(x, y))
+                ca, cb = self.cond(a), self.cond(b)
+                flip = False
+                if ca[0] == "not":
+                    ca, flip = ca[1], not flip
+                if cb[0] == "not":
+                    cb, flip = cb[1], not flip
+                if ca == cb:
+                    r = ("true",)
+                elif ca in (("true",), ("false",)) or cb in (("true",), ("false",)):
+                    konst, other = (ca, cb) if ca in (("true",), ("false",)) else (cb, ca)
+                    r = other if konst == ("true",) else self.cnot(other)
+                else:
+                    ks = sorted([ca, cb], key=repr)
+                    r = ("iff", ks[0], ks[1])
+                if flip:
+                    r = self.cnot(r)
             else:
                 ka, kb = self.opaque(a), self.opaque(b)
                 if ka == kb:
@@ -199,7 +223,15 @@ class Norm:
             if op == "ne":
                 r = self.cnot(r)
         elif op == "sign":
-            r = ("sign", self.pkey(self.poly(c.args[0])))
+            P_ = self.poly(c.args[0])
+            if self.sign_odd and P_:
+                Q_ = self.scale(P_, -1)
+                if self.pkey(Q_) < self.pkey(P_):
+                    r = ("not", ("sign", self.pkey(Q_)))
+                else:
+                    r = ("sign", self.pkey(P_))
+            else:
+                r = ("sign", self.pkey(P_))
         elif op == "isqrt_sq":
             r = ("isqrt_sq", self.pkey(self.poly(c.args[0])), self.pkey(self.poly(c.args[1])))
         elif op == "ite":
@@ -307,3 +339,54 @@ def reduce_te_curve(N, poly, xid, yid, a_coeff, d_coeff):
                     out.pop(m, None)
         poly = out
     return poly
+
+
+def reduce_modulo_isqrt(N, poly, square_case, zeta):
+    """`poly` cleared of the square-root atoms using the CONTRACT of the square-root-of-ratio routine on the flow where it
+    reports `square_case`:   v^2 * den = num   (square)   /   v^2 * den = zeta * num   (non-square),  den != 0,
+    and of the +-1 selection atoms S = ITE(c, -1, 1) using S^2 = 1.
+    Returns (residual polynomial free of even powers of v - multiplied through by a power of den -, list of problems)."""
+    p = N.p
+    problems = []
+    # S^2 = 1
+    one, mone = N.pkey(N.const(1)), N.pkey(N.const(-1))
+    sgn_ids = {i for i, k in enumerate(N.atom_desc) if isinstance(k, tuple) and k and k[0] == "ite" and {k[2], k[3]} == {one, mone}}
+    red = {}
+    for m, c in poly.items():
+        m2 = tuple(sorted((a, (e % 2 if a in sgn_ids else e)) for a, e in m if not (a in sgn_ids and e % 2 == 0)))
+        v = (red.get(m2, 0) + c) % p
+        if v:
+            red[m2] = v
+        else:
+            red.pop(m2, None)
+    poly = red
+    v_ids = [i for i, k in enumerate(N.atom_desc) if isinstance(k, tuple) and k and k[0] == "isqrt_v" and any(a == i for m in poly for a, e in m)]
+    for vid in v_ids:
+        k = N.atom_desc[vid]
+        num, den = dict(k[1]), dict(k[2])
+        rhs = N.scale(num, 1 if square_case else zeta)          # v^2 * den = rhs
+        byk = {}
+        kmax = 0
+        for m, c in poly.items():
+            d = dict(m)
+            e = d.pop(vid, 0)
+            rest = tuple(sorted(d.items()))
+            if e % 2:
+                problems.append("odd power of the square-root output survives")
+            kk = e // 2
+            kmax = max(kmax, kk)
+            byk.setdefault((kk, e % 2), {})
+            t = byk[(kk, e % 2)]
+            key_rest = rest if e % 2 == 0 else tuple(sorted(list(rest) + [(vid, 1)]))
+            t[key_rest] = (t.get(key_rest, 0) + c) % p
+        # multiply through by den^kmax:  sum_k A_k v^(2k)  ->  sum_k A_k rhs^k den^(kmax-k)
+        total = {}
+        for (kk, odd), A in byk.items():
+            term = {m_: c_ for m_, c_ in A.items() if c_}
+            for _ in range(kk):
+                term = N.mul(term, rhs)
+            for _ in range(kmax - kk):
+                term = N.mul(term, den)
+            total = N.add(total, term)
+        poly = total
+    return poly, problems
